@@ -41,20 +41,20 @@ _REAL = {}
 _BACKENDS = {}
 
 
-class _Capture(logging.Handler):
+class _Capture:
+    """Log records of gwf, captured raw.  logging.Logger._log is replaced while a world is installed:
+    building a real LogRecord reads the clock, and CrossHair makes time.time() symbolic, which
+    would fork paths on the record's timestamp."""
+
     def __init__(self):
-        logging.Handler.__init__(self, level=logging.INFO)
         self.records = []
-
-    def handle(self, record):          # no formatting, no locks needed
-        self.records.append((record.name, record.levelno, record.msg, record.args))
-        return True
-
-    def emit(self, record):
-        pass
 
 
 CAPTURE = _Capture()
+
+
+def _captured_log(self, level, msg, args, exc_info=None, extra=None, stack_info=False, stacklevel=1):
+    CAPTURE.records.append((self.name, level, msg, args))
 
 
 def raw(cmd):
@@ -126,9 +126,9 @@ class World:
         click.confirm = self._confirm
         root = logging.getLogger("gwf")
         root.setLevel(logging.INFO)
-        root.propagate = False
-        if CAPTURE not in root.handlers:
-            root.addHandler(CAPTURE)
+        _REAL.setdefault("_log", logging.Logger._log)
+        logging.Logger._log = _captured_log
+        logging.disable(logging.NOTSET)
         del CAPTURE.records[:]
         self.installed = True
 
@@ -142,6 +142,7 @@ class World:
             click.secho = _REAL["secho"]
             click.echo_via_pager = _REAL["pager"]
             click.confirm = _REAL["confirm"]
+            logging.Logger._log = _REAL["_log"]
         self.installed = False
 
     def _echo(self, message=None, *a, **kw):
